@@ -38,6 +38,9 @@ def specs_for(ctx):
         dict(D=2, target="outside", box="sym", noise="declared", sigma=0.3, options=dict(max_fun_evals=70, noise_final_samples=3), seed=sd + 3),
         dict(D=1, target="outside", box="sym", noise="det", x0="absent", options=dict(max_fun_evals=40), seed=sd + 4),
         dict(D=2, target="outside", box="mixed", noise="det", options=dict(max_fun_evals=80), seed=sd + 5),
+        # a constraint function together with an omitted / partly missing start: whatever the constructor hands to the user's constraint must be a point of the box
+        dict(D=2, target="sphere", box="sym", noise="det", cons="ball", x0="absent", options=dict(max_fun_evals=50), seed=sd + 10),
+        dict(D=3, target="outside", box="log", noise="det", cons="ball", x0="absent", options=dict(max_fun_evals=60), seed=sd + 11),
         dict(D=2, target="outside", box="logbig", noise="det", options=dict(max_fun_evals=70), seed=sd + 6),
         dict(D=2, target="outside", box="dec", noise="det", options=dict(max_fun_evals=60), seed=sd + 7),
         dict(D=2, target="outside", box="declog", noise="det", options=dict(max_fun_evals=60), seed=sd + 8),
